@@ -36,6 +36,9 @@ const (
 	aiTuple
 	aiBytes // a byte slice being appended to (text so far)
 	aiNil
+	aiErr    // an error value: b = known non-nil
+	aiOpaque // a value only passed along (the URL, the parser, the input)
+	aiWin    // a slice of the address: pieces [i, j)
 )
 
 type aiVal struct {
@@ -45,6 +48,8 @@ type aiVal struct {
 	s    string
 	cell *aiCell
 	tup  []aiVal
+	j    int64
+	unk  bool // a piece whose being zero is not known
 }
 
 type aiCell struct {
@@ -52,11 +57,23 @@ type aiCell struct {
 }
 
 type aiInterp struct {
-	c       *Ctx
-	pattern [8]bool // true: piece is zero
-	steps   int
-	why     string
-	bad     string // a definite defect found on the way (not a domain limit)
+	c     *Ctx
+	arr   [8]aiVal // the pieces of the address (aiPiece: s = token, b = is zero)
+	steps int
+	why   string
+	bad   string // a definite defect found on the way (not a domain limit)
+	// hook models a call instead of interpreting it (ok = handled)
+	hook func(cl *ssa.Function, args []aiVal) (aiVal, bool)
+}
+
+func (ai *aiInterp) setPattern(zero [8]bool) {
+	for i := range ai.arr {
+		if zero[i] {
+			ai.arr[i] = aiVal{k: aiPiece, s: "0", b: true}
+		} else {
+			ai.arr[i] = aiVal{k: aiPiece, s: fmt.Sprintf("<%d>", i)}
+		}
+	}
 }
 
 func (ai *aiInterp) fail(why string) aiVal {
@@ -125,7 +142,11 @@ func (ai *aiInterp) call(fn *ssa.Function, args []aiVal, depth int) aiVal {
 			fr.env[p] = args[i]
 		}
 	}
-	b := fn.Blocks[0]
+	return ai.exec(fr, fn.Blocks[0], depth)
+}
+
+// exec runs the frame from block b to a return.
+func (ai *aiInterp) exec(fr *aiFrame, b *ssa.BasicBlock, depth int) aiVal {
 	for {
 		ai.steps++
 		if ai.steps > 20000 {
@@ -150,7 +171,7 @@ func (ai *aiInterp) call(fn *ssa.Function, args []aiVal, depth int) aiVal {
 			}
 		}
 		for _, ins := range b.Instrs {
-			if ai.why != "" {
+			if ai.why != "" || ai.bad != "" {
 				return aiVal{}
 			}
 			switch x := ins.(type) {
@@ -160,20 +181,36 @@ func (ai *aiInterp) call(fn *ssa.Function, args []aiVal, depth int) aiVal {
 				fr.env[x] = aiVal{k: aiPtr, cell: &aiCell{v: ai.zero(pt)}}
 			case *ssa.Store:
 				a := ai.val(fr, x.Addr)
-				if a.k != aiPtr {
-					return ai.fail("a store that is not to a local variable")
+				v := ai.val(fr, x.Val)
+				switch {
+				case a.k == aiPtr:
+					a.cell.v = v
+				case a.k == aiElem && v.k == aiPiece:
+					ai.arr[a.i] = v
+				case a.k == aiElem && v.k == aiInt && v.i == 0:
+					ai.arr[a.i] = aiVal{k: aiPiece, s: "0", b: true}
+				default:
+					return ai.fail("a store that is neither to a local variable nor of a piece into the address")
 				}
-				a.cell.v = ai.val(fr, x.Val)
 			case *ssa.IndexAddr:
 				base, idx := ai.val(fr, x.X), ai.val(fr, x.Index)
 				if base.k == aiPtr && base.cell.v.k == aiArr {
 					base = base.cell.v // a local copy of the address
 				}
+				if base.k == aiWin && idx.k == aiInt {
+					if idx.i < 0 || base.i+idx.i >= base.j {
+						ai.bad = fmt.Sprintf("index %d of a %d-piece slice of the address is out of range", idx.i, base.j-base.i)
+						return aiVal{}
+					}
+					fr.env[x] = aiVal{k: aiElem, i: base.i + idx.i}
+					continue
+				}
 				if base.k != aiArr || idx.k != aiInt {
 					return ai.fail("an element access that is not address[constant]")
 				}
 				if idx.i < 0 || idx.i > 7 {
-					return ai.fail(fmt.Sprintf("index %d out of range", idx.i))
+					ai.bad = fmt.Sprintf("index %d of the address is out of range", idx.i)
+					return aiVal{}
 				}
 				fr.env[x] = aiVal{k: aiElem, i: idx.i}
 			case *ssa.Index:
@@ -181,14 +218,14 @@ func (ai *aiInterp) call(fn *ssa.Function, args []aiVal, depth int) aiVal {
 				if base.k != aiArr || idx.k != aiInt || idx.i < 0 || idx.i > 7 {
 					return ai.fail("an element access that is not address[constant]")
 				}
-				fr.env[x] = aiVal{k: aiPiece, i: idx.i, b: ai.pattern[idx.i]}
+				fr.env[x] = ai.arr[idx.i]
 			case *ssa.UnOp:
 				in := ai.val(fr, x.X)
 				switch x.Op {
 				case token.MUL:
 					switch in.k {
 					case aiElem:
-						fr.env[x] = aiVal{k: aiPiece, i: in.i, b: ai.pattern[in.i]}
+						fr.env[x] = ai.arr[in.i]
 					case aiPtr:
 						fr.env[x] = in.cell.v
 					case aiArr:
@@ -255,7 +292,28 @@ func (ai *aiInterp) call(fn *ssa.Function, args []aiVal, depth int) aiVal {
 						fr.env[x] = aiVal{k: in.k}
 						continue
 					}
+					if in.k == aiPtr && in.cell.v.k == aiArr {
+						in = in.cell.v
+					}
+					if in.k == aiArr || in.k == aiWin {
+						base, end := int64(0), int64(8)
+						if in.k == aiWin {
+							base, end = in.i, in.j
+						}
+						if hi < 0 {
+							hi = end - base
+						}
+						if lo < 0 || lo > hi || base+hi > 8 {
+							ai.bad = fmt.Sprintf("slice bounds [%d:%d] of the address are out of range", lo, hi)
+							return aiVal{}
+						}
+						fr.env[x] = aiVal{k: aiWin, i: base + lo, j: base + hi}
+						continue
+					}
 					return ai.fail("a partial slice")
+				}
+				if in.k == aiArr {
+					in = aiVal{k: aiWin, i: 0, j: 8}
 				}
 				fr.env[x] = in
 			case *ssa.MakeSlice:
@@ -299,7 +357,7 @@ func (ai *aiInterp) call(fn *ssa.Function, args []aiVal, depth int) aiVal {
 				break
 			}
 		}
-		if ai.why != "" {
+		if ai.why != "" || ai.bad != "" {
 			return aiVal{}
 		}
 	}
@@ -311,6 +369,9 @@ func (ai *aiInterp) binop(op token.Token, l, r aiVal) aiVal {
 		p, o := l, r
 		if r.k == aiPiece {
 			p, o = r, l
+		}
+		if o.k == aiInt && o.i == 0 && p.unk {
+			return ai.fail("a branch on the value of a piece that is not known")
 		}
 		if o.k == aiInt && o.i == 0 {
 			switch op {
@@ -363,6 +424,17 @@ func (ai *aiInterp) binop(op token.Token, l, r aiVal) aiVal {
 		case token.OR:
 			return aiVal{k: aiBool, b: l.b || r.b}
 		}
+	case (l.k == aiErr || l.k == aiNil) && (r.k == aiErr || r.k == aiNil) && (l.k == aiNil || r.k == aiNil):
+		nonNil := (l.k == aiErr && l.b) || (r.k == aiErr && r.b)
+		if (l.k == aiErr && !l.b) || (r.k == aiErr && !r.b) {
+			return ai.fail("an error value not known to be nil or not")
+		}
+		switch op {
+		case token.EQL:
+			return aiVal{k: aiBool, b: !nonNil}
+		case token.NEQ:
+			return aiVal{k: aiBool, b: nonNil}
+		}
 	case l.k == aiStr && r.k == aiStr:
 		switch op {
 		case token.ADD:
@@ -377,10 +449,7 @@ func (ai *aiInterp) binop(op token.Token, l, r aiVal) aiVal {
 }
 
 func (ai *aiInterp) pieceText(p aiVal) string {
-	if p.b {
-		return "0"
-	}
-	return fmt.Sprintf("<%d>", p.i)
+	return p.s
 }
 
 func (ai *aiInterp) doCall(fr *aiFrame, call *ssa.Call, depth int) aiVal {
@@ -392,7 +461,23 @@ func (ai *aiInterp) doCall(fr *aiFrame, call *ssa.Call, depth int) aiVal {
 			if a.k == aiArr {
 				return aiVal{k: aiInt, i: 8}
 			}
+			if a.k == aiWin {
+				return aiVal{k: aiInt, i: a.j - a.i}
+			}
 			return ai.fail("len of a value outside the domain")
+		case "copy":
+			d, sr := ai.val(fr, com.Args[0]), ai.val(fr, com.Args[1])
+			if d.k != aiWin || sr.k != aiWin {
+				return ai.fail("copy of values outside the domain")
+			}
+			n := d.j - d.i
+			if sr.j-sr.i < n {
+				n = sr.j - sr.i
+			}
+			tmp := make([]aiVal, n)
+			copy(tmp, ai.arr[sr.i:sr.i+n])
+			copy(ai.arr[d.i:d.i+n], tmp)
+			return aiVal{k: aiInt, i: n}
 		case "append":
 			// append(buf, bytes…) with constant bytes / append(buf, s...)
 			a := ai.val(fr, com.Args[0])
@@ -451,6 +536,11 @@ func (ai *aiInterp) doCall(fr *aiFrame, call *ssa.Call, depth int) aiVal {
 		args = append(args, ai.val(fr, a))
 		if ai.why != "" {
 			return aiVal{}
+		}
+	}
+	if ai.hook != nil {
+		if r, ok := ai.hook(cl, args); ok {
+			return r
 		}
 	}
 	switch cl.String() {
@@ -568,8 +658,13 @@ func init() {
 				for i := 0; i < 8; i++ {
 					pat[i] = m&(1<<uint(i)) != 0
 				}
-				ai := &aiInterp{c: c, pattern: pat}
+				ai := &aiInterp{c: c}
+				ai.setPattern(pat)
 				out := ai.call(f, []aiVal{{k: aiArr}}, 0)
+				if ai.bad != "" {
+					bad = ai.bad
+					break
+				}
 				if ai.why != "" {
 					undec = ai.why
 					break
